@@ -17,6 +17,7 @@ import (
 
 	"verif/internal/hx"
 	"verif/internal/kenc"
+	"verif/internal/uapi"
 )
 
 // C15 — coalescing never panics, leaves its input messages intact, is
@@ -56,7 +57,48 @@ func (c C15Case) Describe() string {
 
 var rawTypes = []uint16{1300, 1302, 1306, 1309, 1327, 1400, 1112, 1105, 1006}
 
-func genGroup(rt *rapid.T, caseType uint16) Group {
+// hintedSyscalls: the syscalls whose normalisation says which PATH record the event is about (object_path_index
+// above zero: mount, mkdir, rename ...), from the working tree's table.
+var (
+	hintedOnce sync.Once
+	hinted     []string
+)
+
+func hintedSyscalls() []string {
+	hintedOnce.Do(func() {
+		b, err := os.ReadFile("/repo/aucoalesce/normalizations.yaml")
+		if err != nil {
+			return
+		}
+		syscalls, _, err := aucoalesce.LoadNormalizationConfig(b)
+		if err != nil {
+			return
+		}
+		for name, n := range syscalls {
+			if _, ok := uapi.S.Syscalls["x86_64"][name]; ok && n.ObjectPathIndex > 0 {
+				hinted = append(hinted, name)
+			}
+		}
+		sort.Strings(hinted)
+	})
+	return hinted
+}
+
+func genGroup(rt *rapid.T, caseType uint16, caseSys string) Group {
+	if caseSys != "" && rapid.IntRange(0, 3).Draw(rt, "hintedgroup") == 0 {
+		// events of one and the same path-index syscall with fewer PATH records than the index, exactly as
+		// many, and more: what one of them makes of the table entry they share must not reach the others
+		tk := &tokens{n: 100 * rapid.IntRange(0, 9000).Draw(rt, "tokenbase")}
+		recs := []kenc.Rec{genSyscallRecNamed(rt, tk, caseSys)}
+		for i, n := 0, rapid.SampledFrom([]int{1, 2, 3, 4, 0, 5}).Draw(rt, "hintedpaths"); i < n; i++ {
+			recs = append(recs, genPathRec(rt, tk, i))
+		}
+		seq := rapid.Uint32().Draw(rt, "seq")
+		for i := range recs {
+			recs[i].Sec, recs[i].Seq = 1700000000, seq
+		}
+		return Group{Recs: recs}
+	}
 	if rapid.IntRange(0, 4).Draw(rt, "rawgroup") == 0 {
 		var g Group
 		for i, n := 0, rapid.IntRange(1, 4).Draw(rt, "nraw"); i < n; i++ {
@@ -142,8 +184,12 @@ func genC15(rt *rapid.T) C15Case {
 	if types := ecsRecordTypes(); len(types) > 0 {
 		caseType = rapid.SampledFrom(types).Draw(rt, "casefirsttype")
 	}
+	caseSys := ""
+	if hs := hintedSyscalls(); len(hs) > 0 && rapid.Bool().Draw(rt, "hintedcase") {
+		caseSys = rapid.SampledFrom(hs).Draw(rt, "casesyscall")
+	}
 	for i, n := 0, rapid.IntRange(2, 6).Draw(rt, "ngroups"); i < n; i++ {
-		c.Groups = append(c.Groups, genGroup(rt, caseType))
+		c.Groups = append(c.Groups, genGroup(rt, caseType, caseSys))
 	}
 	for i, n := 0, rapid.IntRange(2, 12).Draw(rt, "nops"); i < n; i++ {
 		c.Ops = append(c.Ops, Op15{K: rapid.SampledFrom([]string{"coalesce", "coalesce", "coalesce", "resolve", "resolvecaches"}).Draw(rt, "k"),
@@ -522,4 +568,53 @@ func TestC15CacheChurn(t *testing.T) {
 		}
 	}
 	hC15.Class("cache-churn")
+}
+
+// TestC15TableIsolation: for every syscall of the normalisation table, in a process whose tables are still as
+// loaded: a well-furnished event of that syscall (four PATH records, CWD) is coalesced, then poorer events of the
+// same syscall (no PATH record, one, two), then the first messages again — the two results must be equal.
+// (What an event makes of the table entry it is normalised with must not reach other events; a random history
+// meets each entry's first poor event only once per process, and rarely right between two looks at a rich one.)
+func TestC15TableIsolation(t *testing.T) {
+	hardcode()
+	names := normSyscalls()
+	if len(names) == 0 {
+		t.Skip("no normalisation table")
+	}
+	event := func(name string, seq, npaths int) []*auparse.AuditMessage {
+		num := uapi.S.Syscalls["x86_64"][name]
+		lines := []string{fmt.Sprintf(`type=SYSCALL msg=audit(1700000000.000:%d): arch=c000003e syscall=%d success=yes exit=0 a0=1 a1=2 a2=3 a3=4 items=%d ppid=1 pid=2 auid=1000 uid=0 gid=0 euid=0 suid=0 fsuid=0 egid=0 sgid=0 fsgid=0 tty=pts0 ses=1 comm="c" exe="/bin/c" key=(null)`, seq, num, npaths),
+			fmt.Sprintf(`type=CWD msg=audit(1700000000.000:%d): cwd="/work"`, seq)}
+		for i := 0; i < npaths; i++ {
+			lines = append(lines, fmt.Sprintf(`type=PATH msg=audit(1700000000.000:%d): item=%d name="/p/%s/%d" inode=%d dev=fd:01 mode=0100644 ouid=%d ogid=%d rdev=00:00 nametype=%s`, seq, i, name, i, 100+i, i, i, []string{"NORMAL", "CREATE", "NORMAL", "DELETE"}[i%4]))
+		}
+		var msgs []*auparse.AuditMessage
+		for _, l := range lines {
+			m, err := auparse.ParseLogLine(l)
+			if err != nil {
+				t.Fatalf("harness: %v", err)
+			}
+			msgs = append(msgs, m)
+		}
+		return msgs
+	}
+	for i, name := range names {
+		rich := event(name, 10*i, 4)
+		ev, err := aucoalesce.CoalesceMessages(rich)
+		if err != nil {
+			continue
+		}
+		before := snapEvent(ev)
+		for j, np := range []int{0, 1, 2, 3} {
+			if poor, err := aucoalesce.CoalesceMessages(event(name, 10*i+1+j, np)); err == nil {
+				aucoalesce.ResolveIDs(poor)
+			}
+		}
+		ev2, err := aucoalesce.CoalesceMessages(event(name, 10*i, 4))
+		hC15.Eval()
+		if err != nil || !eqSnap(before, snapEvent(ev2)) {
+			hC15.Fail(t, "TestC15TableIsolation", C15Case{}, "syscall %s: an event with four PATH records coalesced before and after events of the same syscall with 0..3 PATH records differs (err %v):\n before %+v\n after  %+v", name, err, before, snapEvent(ev2))
+		}
+	}
+	hC15.Class("table-isolation-sweep")
 }
